@@ -12,8 +12,8 @@
       clone: [name "[COMMAND]..."] and [name "[COMMAND]"] (the latter iff the level has visible subcommands).
     These are the two forms of the recorded finding C11-flatten-help-subcommand-shape; the normalisation of the
     classifier in vp/props/c11.py ([flatten_help_shape]: read ` help [COMMAND]...` as ` help [COMMAND]`) maps one line
-    onto the other.  (Help/HelpFlattenLevel.v: the two builds are the same record up to that subcommand; the statement that the two
-    BLOCKS are [common ++ [help line]] is not closed, see docs/notes/C11.md.) *)
+    onto the other.  (Help/HelpFlattenLevel.v: the two builds are the same record up to that subcommand, and the two BLOCKS of a
+    flattened level are [common ++ [help line]] with the same [common]: [flatten_help_shape_level].) *)
 From Coq Require Import List Bool Lia NArith.
 Import ListNotations.
 From ClapModel Require Import Base.Bytes Base.Machine Parse.Cmd Parse.Valid Parse.Matcher Parse.Errors Parse.Validator.
